@@ -398,6 +398,10 @@ namespace Pistache
 
     void Address::init(const std::string& addr)
     {
+        // the C functions used below would silently stop at an embedded NUL
+        if (addr.find('\0') != std::string::npos)
+            throw std::invalid_argument("Invalid address: embedded NUL");
+
         AddressParser parser(addr);
         const int family = parser.family();
 
